@@ -635,12 +635,14 @@ def check_merge(inp):
     want = sorted(set(t for r in x + y for t in r))
     if [s for s, _ in iv] + [iv[-1][1]] != want:
         return "boundaries %r are not the union of the input boundaries %r" % (iv, want)
-    tot = 0.0
+    tot = Fr(0)
     for (s, e), lx, ly in zip(iv, oxl, oyl):
         if not e > s:
             return "non-positive output duration [%r, %r]" % (s, e)
-        tot += e - s
+        tot += Fr(e) - Fr(s)
         for t in (s, (s + e) / 2):
+            if not s <= t < e:
+                continue          # the binary64 midpoint of two neighbouring doubles is one of them
             if label_at(x, xl, t) != [lx]:
                 return "x-label over [%r, %r] is %r, x has %r at %r" % (s, e, lx, label_at(x, xl, t), t)
             if label_at(y, yl, t) != [ly]:
@@ -648,16 +650,43 @@ def check_merge(inp):
         # the whole output interval lies inside one row of each input
         if not any(xs <= s and e <= xe for xs, xe in x) or not any(ys <= s and e <= ye for ys, ye in y):
             return "output interval [%r, %r] straddles an input boundary" % (s, e)
-    if tot != hi - lo:
-        return "total duration %r, span %r" % (tot, hi - lo)
+    if tot != Fr(hi) - Fr(lo):
+        return "total duration %r, span %r" % (float(tot), hi - lo)
     return None
 
 
+def _near_cut(rng, x, xl, y, yl):
+    """one more cut in x or y, next to (not on) an existing boundary of either sequence: 1 ulp .. 1e-7 s away at
+    ordinary time stamps, up to 0.9e-5 * t away (what a RELATIVE tolerance calls equal) after a shift to late time stamps.
+    Both sequences stay valid, aligned segmentations; the merged boundaries are still the union, nothing may collapse."""
+    t0 = rng.choice([0.0, 0.0, 1024.0, 3600.0, 16384.0])
+    x = [(F(s) + t0, F(e) + t0) for s, e in x]
+    y = [(F(s) + t0, F(e) + t0) for s, e in y]
+    lo, hi = x[0][0], x[-1][1]
+    for _ in range(rng.randint(1, 3)):
+        b = rng.choice(sorted(set(t for r in x + y for t in r)))
+        ulp = float(np.spacing(b)) if b > 0 else 5e-324
+        d = rng.choice([ulp, 2 * ulp, 4e-10, 9.9e-10, 3e-9, 1e-7] + ([0.9e-5 * b, 0.3e-5 * b] if b >= 1024 else []))
+        c = b - d if rng.random() < 0.6 else b + d
+        if not lo < c < hi or any(c == t for r in x + y for t in r):
+            continue
+        seq, labs = (x, xl) if rng.random() < 0.5 else (y, yl)
+        for k, (s, e) in enumerate(seq):
+            if s < c < e:
+                seq[k:k + 1] = [(s, c), (c, e)]
+                labs[k:k + 1] = [labs[k], labs[k] if rng.random() < 0.5 else rng.choice(LABS)]
+                break
+    return x, xl, y, yl
+
+
 def gen_merge(rng, tier, shard, nshards, boost):
-    for _ in range((150 if tier == "quick" else 2000) * boost):
+    for i in range((150 if tier == "quick" else 2000) * boost):
         x, xl, y, yl = aligned_pair(rng, nmax=rng.choice([3, 5, 8]))
         if rng.random() < 0.5:
             x, xl, y, yl = y, yl, x, xl
+        x, xl, y, yl = list(x), list(xl), list(y), list(yl)
+        if i % 3 == 2:
+            x, xl, y, yl = _near_cut(rng, x, xl, y, yl)
         yield {"x": [[F(s), F(e)] for s, e in x], "xl": xl, "y": [[F(s), F(e)] for s, e in y], "yl": yl}
 
 
